@@ -30,6 +30,7 @@ type built struct {
 	CipherW   int64 // ciphertext bytes written to / read from the dialled connection (whole connection)
 	CipherR   int64
 	CipherWN  int64 // number of writes on the dialled connection in the tunnel phase
+	DCRead0   int64 // bytes the proxy read from the dialled connection before it replied to the client
 	LCSched   []int // sizes the proxy's Reads on the client connection returned up to the reply
 	TReq      int64 // time of the proxy's first read on the client connection (lower bound of readRequest's t0)
 	TResp     int64 // time of its last read before the reply (lower bound of writeResponse's time.Now())
@@ -93,6 +94,7 @@ func buildTrace(sc *scenario) built {
 	if w0f != int64(sc.farPre) {
 		prob("proxy wrote %d bytes upstream before replying, the far endpoint parsed a preamble of %d", w0f, sc.farPre)
 	}
+	b.DCRead0 = r0f
 	if r0f < hT {
 		prob("proxy replied after reading %d bytes from upstream, the upstream reply head has %d", r0f, hT)
 		return b
